@@ -444,7 +444,7 @@ static struct Register {
 #endif
 #if SEL(8, 0)
 		{ Cfg c = nestC; c.ledgerOnly = true;
-		  addUnit<PolPlain<ST> >("C08/queue/nested-consume", 0, c, 4, 5, 1, 2); }
+		  addUnit<PolPlain<ST> >("C08/queue/nested-consume", 0, c, 4, 4, 1, 2); }
 #endif
 #if SEL(8, 1)
 		{ Cfg c = flat; c.ledgerOnly = true;
